@@ -62,6 +62,16 @@ OUT_PARAM_CONTRACTS = {
 }
 
 
+# CallC arguments that the C function accepts as NULL (read from mypyc/lib-rt/misc_ops.c)
+NULLABLE_CALLC_ARGS = {
+    ("CPyType_FromTemplate", 1),                 # orig_bases: `if (orig_bases) …`
+    ("CPySingledispatch_RegisterFunction", 2),   # func: `if (func == NULL) { one argument case`
+}
+# op classes whose result can be the error value even when `error_kind` says ERR_NEVER (then the IR tests it)
+CAN_BE_NULL_WHEN_TESTED = {"Call", "MethodCall", "CallC", "GetAttr", "LoadStatic", "LoadMem", "LoadGlobal", "GetElement"}
+SPILL_ATTR_PREFIX = "__mypyc_temp__2_"          # mypyc/transform/spill.py: f"{TEMP_ATTR_NAME}2_{i}"
+
+
 class Unmodelled(Exception):
     pass
 
@@ -81,6 +91,7 @@ class Micro:
         self.args: list[tuple[int, int]] = []  # (var, kind)
         self.blocks: list[dict] = []           # {"ops": [(code, a, b, src_op_index)], "term": (...)}
         self.unmodelled: str | None = None
+        self.idioms: dict[str, int] = {}       # trusted idioms applied (counted into the evidence)
 
 
 def flatten(fd: dict) -> Micro:
@@ -90,7 +101,13 @@ def flatten(fd: dict) -> Micro:
     if "export_error" in fd:
         m.unmodelled = "export-error"
         return m
+    if fd.get("keepalive_lost"):
+        m.unmodelled = "a consumed KeepAlive(steal) could not be located in the final IR"
+        return m
     vals = fd["values"]
+
+    def idiom(name: str) -> None:
+        m.idioms[name] = m.idioms.get(name, 0) + 1
     for v in vals:
         if is_rc(v):
             m.var_of[v["id"]] = len(m.val_of)
@@ -131,10 +148,25 @@ def flatten(fd: dict) -> Micro:
             ops: list[tuple[int, int, int, int]] = []
             term: Any = None
             blk_ops = b["ops"]
+            pending_after: dict[int, list[int]] = {}
             for oi, op in enumerate(blk_ops):
                 c = op["op"]
+                for s in pending_after.pop(oi, []):
+                    if s in var:
+                        ops.append((STEAL, var[s], 0, oi))
+                        idiom("keepalive-steal")
+                if c in ("Goto", "Unreachable", "Return", "Branch", "IncRef", "DecRef", "Assign", "LoadAddress") \
+                        and (op.get("ka_steal_before") or op.get("ka_steal_after")):
+                    if op.get("ka_steal_after"):
+                        raise Unmodelled("KeepAlive(steal) anchored after a " + c)
+                    for s in op["ka_steal_before"]:
+                        if s in var:
+                            ops.append((STEAL, var[s], 0, oi))
+                            idiom("keepalive-steal")
                 if c not in MODELLED_OPS:
                     raise Unmodelled("op class " + c)
+                if (c == "Goto" and op["label"] < 0) or (c == "Branch" and (op["true"] < 0 or op["false"] < 0)):
+                    raise Unmodelled("branch to a block that is not part of the function")
                 if c == "Goto":
                     term = ("br", [([], op["label"])])
                 elif c == "Unreachable":
@@ -162,6 +194,25 @@ def flatten(fd: dict) -> Micro:
                             t_ops, f_ops = ok, err
                         else:
                             t_ops, f_ops = err, ok
+                    else:
+                        # `c = (p == 0)` / `(p != 0)` on a tracked pointer p, defined in this block, then `if c`:
+                        # the same refinement as IS_ERROR (this is how `propagate_if_error` is lowered)
+                        cmp = next((x for x in blk_ops[:oi] if x.get("dest") == v and x["op"] == "ComparisonOp"), None)
+                        if cmp is not None and cmp.get("opcode") in ("==", "!=") and len(cmp["srcs"]) == 2:
+                            a, bb = cmp["srcs"]
+                            if vals[a]["kind"] == "int":
+                                a, bb = bb, a
+                            if a in var and vals[bb]["kind"] == "int" and vals[bb]["value"] == 0:
+                                ci = blk_ops.index(cmp)
+                                stable = all(not (x.get("dest") == a or (x["op"] == "Assign" and x["src"] == a)
+                                                  or a in x.get("stolen", [])) for x in blk_ops[ci + 1:oi])
+                                if stable:
+                                    isnull, nonnull = [(ASSUME_NULL, var[a], 0, oi)], [(ASSUME_OK, var[a], 0, oi)]
+                                    eq = cmp["opcode"] == "=="
+                                    if op["negated"]:
+                                        eq = not eq
+                                    t_ops, f_ops = (isnull, nonnull) if eq else (nonnull, isnull)
+                                    idiom("null-comparison-branch")
                     term = ("br", [(t_ops, op["true"]), (f_ops, op["false"])])
                 elif c == "IncRef":
                     if op["src"] in var:
@@ -180,7 +231,7 @@ def flatten(fd: dict) -> Micro:
                             ops.append((DEFINE, var[d], IMM, oi))
                         elif sv["kind"] == "int" and sv["value"] == 0:
                             ops.append((DEFINE, var[d], NULL, oi))      # NULL pointer literal
-                        elif sv["kind"] == "op" and not sv["type"]["rc"] and vals[d]["type"]["name"] == "int" \
+                        elif sv["kind"] in ("op", "reg") and not sv["type"]["rc"] and vals[d]["type"]["name"] == "int" \
                                 and sv["type"]["name"] in ("short_int", "bool", "bit"):
                             ops.append((DEFINE, var[d], IMM, oi))
                         else:
@@ -192,6 +243,10 @@ def flatten(fd: dict) -> Micro:
                     if op["dest"] in var:
                         ops.append((DEFINE, var[op["dest"]], BORROWED, oi))
                 else:
+                    for s in op.get("ka_steal_before", []):
+                        if s in var:
+                            ops.append((STEAL, var[s], 0, oi))
+                            idiom("keepalive-steal")
                     stolen = list(op["stolen"])
                     seen: list[int] = []
                     for i, s in enumerate(op["srcs"]):
@@ -201,7 +256,12 @@ def flatten(fd: dict) -> Micro:
                         if s in stolen:
                             continue
                         code = USE
-                        if c in ("Call", "MethodCall"):
+                        if c in ("ComparisonOp",):
+                            code = USE_MAYBE                           # pointer comparison: no dereference
+                        elif c == "CallC" and all((op["function"], j) in NULLABLE_CALLC_ARGS
+                                                  for j, x in enumerate(op["srcs"]) if x == s):
+                            code = USE_MAYBE
+                        elif c in ("Call", "MethodCall"):
                             # positions of s among the arguments (MethodCall.sources() = args + [obj])
                             pos = [j for j, x in enumerate(op["srcs"]) if x == s]
                             opt = op.get("arg_optional", [])
@@ -217,18 +277,47 @@ def flatten(fd: dict) -> Micro:
                             kind = NULL
                         else:
                             maybe = op["error_kind"] in (ERR_MAGIC, ERR_MAGIC_OVERLAPPING) or \
-                                (c == "CallC" and op["returns_null"]) or d in tested
-                            if op["borrowed"]:
+                                (c == "CallC" and op["returns_null"]) or (d in tested and c in CAN_BE_NULL_WHEN_TESTED)
+                            if c == "GetAttr" and op["attr"].startswith(SPILL_ATTR_PREFIX) and d not in tested:
+                                # read-back of a spill slot (spill.py inserts it after the exception transform,
+                                # without an error branch): the slot holds the spilled value — heap invariant, trusted
+                                maybe = False
+                                idiom("spill-read")
+                            takeover = False
+                            if c == "LoadMem" and op["borrowed"]:
+                                # `old = borrow *p; dec_ref old; … *p = new` (irbuild/vec.py vec_set_item): the
+                                # slot's own reference is taken over and released before the slot is overwritten
+                                rest = blk_ops[oi + 1:]
+                                k = 0
+                                while k < len(rest) and rest[k]["op"] in ("IncRef", "DecRef"):
+                                    k += 1
+                                if rest and rest[0]["op"] == "DecRef" and rest[0]["src"] == d and k < len(rest) \
+                                        and rest[k]["op"] == "SetMem" and rest[k]["srcs"][-1] == op["srcs"][0] \
+                                        and sum(1 for bb2 in fd["blocks"] for x in bb2["ops"] if d in x["srcs"]) == 1:
+                                    takeover = True
+                                    idiom("slot-takeover")
+                            if takeover:
+                                kind = OWNED
+                            elif op["borrowed"]:
                                 kind = MAYBE_BORROWED if maybe else BORROWED
                             else:
                                 kind = MAYBE if maybe else OWNED
                         ops.append((DEFINE, var[d], kind, oi))
+                    if op.get("ka_steal_after"):
+                        # the consumed KeepAlive came after this op and the refcount ops inserted behind it
+                        k = oi + 1
+                        while k < len(blk_ops) and blk_ops[k]["op"] in ("IncRef", "DecRef"):
+                            k += 1
+                        pending_after.setdefault(k, []).extend(op["ka_steal_after"])
                     oc = out_calls.get(d) if d is not None else None
                     if oc is not None:
                         contract, reg = oc
-                        nxt = blk_ops[oi + 1] if oi + 1 < len(blk_ops) else None
-                        if not (nxt is not None and nxt["op"] == "Branch" and nxt["kind"] == "IS_ERROR" and nxt["value"] == d):
-                            raise Unmodelled("out-parameter call not directly followed by its error branch")
+                        last = blk_ops[-1]
+                        between = blk_ops[oi + 1:-1]
+                        if not (last["op"] == "Branch" and last["kind"] == "IS_ERROR" and last["value"] == d
+                                and all(x["op"] in ("IncRef", "DecRef") and x["src"] != reg for x in between)):
+                            raise Unmodelled("out-parameter call not followed by its error branch")
+                        idiom("out-parameter:" + contract)
                         # the callee writes through the pointer: an owned reference or NULL
                         ops.append((DEFINE, var[reg], MAYBE, oi))
             if term is None:
